@@ -3,7 +3,7 @@
    the binary64 instance used by the code is tied to Go bit for bit by the correspondence run, and its
    inexact corners (division + tolerance in multipleOf, the integer test) are the recorded class numeric-inexact. *)
 From Coq Require Import List ZArith Bool QArith Lia.
-From Verif Require Import Base.Sx Base.GoVal Schema.Ast Schema.Pipeline Schema.Numeric.
+From Verif Require Import Base.Sx Base.GoVal Base.F64 Base.F64Exact Schema.Ast Schema.Pipeline Schema.Numeric Schema.NumericFlocq.
 Import ListNotations.
 Open Scope Z_scope.
 
@@ -40,6 +40,50 @@ Theorem C13_multipleOf_integer_exact : forall N value ok, exact_iface N value ok
   mult_native N (VInt k z) factor = if f <=? 0 then MNotPositive else if Z.eqb (z mod f) 0 then MOk else MNotMultiple.
 Proof. exact mult_native_int_exact. Qed.
 Print Assumptions C13_multipleOf_integer_exact.
+
+(* the binary64 instance that the correspondence run executes against Go satisfies the interface (Base/F64Exact.v: the order
+   is the order of the values, the integer value is the integer value, integers within +-2^53 convert exactly): the
+   theorems above hold of the very model that is tied to the code *)
+Theorem C13_the_binary64_model_satisfies_the_interface : exact_iface flocq_ops fvalue fok.
+Proof. exact flocq_exact. Qed.
+Print Assumptions C13_the_binary64_model_satisfies_the_interface.
+
+Theorem C13_maximum_exact_for_the_binary64_model :
+  forall d mx excl q, carrier_ok fok d -> fok mx -> carried fvalue d = Some q ->
+  (max_native flocq_ops d mx excl = true <-> if excl then (fvalue mx <= q)%Q else (fvalue mx < q)%Q).
+Proof. exact (max_native_exact flocq_ops fvalue fok flocq_exact). Qed.
+Print Assumptions C13_maximum_exact_for_the_binary64_model.
+
+Theorem C13_minimum_exact_for_the_binary64_model :
+  forall d mn excl q, carrier_ok fok d -> fok mn -> carried fvalue d = Some q ->
+  (min_native flocq_ops d mn excl = true <-> if excl then (q <= fvalue mn)%Q else (q < fvalue mn)%Q).
+Proof. exact (min_native_exact flocq_ops fvalue fok flocq_exact). Qed.
+Print Assumptions C13_minimum_exact_for_the_binary64_model.
+
+Theorem C13_multipleOf_integer_exact_for_the_binary64_model :
+  forall k z factor f, small z -> (ikind_signed k = false -> 0 <= z) -> fok factor -> (fvalue factor == inject_Z f)%Q -> small f ->
+  mult_native flocq_ops (VInt k z) factor = if f <=? 0 then MNotPositive else if Z.eqb (z mod f) 0 then MOk else MNotMultiple.
+Proof. exact (mult_native_int_exact flocq_ops fvalue fok flocq_exact). Qed.
+Print Assumptions C13_multipleOf_integer_exact_for_the_binary64_model.
+
+(* the same number, whatever carries it: an integer carrier and the float64 that holds the same integer get the same
+   answer from maximum and minimum - of the binary64 model *)
+Theorem C13_maximum_carrier_independent_for_the_binary64_model :
+  forall k z mx excl, small z -> (ikind_signed k = false -> 0 <= z) -> fok mx ->
+  max_native flocq_ops (VInt k z) mx excl = max_native flocq_ops (VFlt false (f_of_Z z)) mx excl.
+Proof.
+  intros k z mx excl Hs Hu Hm. destruct (f_of_Z_exact z Hs) as [Ho Hv].
+  eapply bool_iff.
+  - apply (max_native_exact flocq_ops fvalue fok flocq_exact (VInt k z) mx excl (inject_Z z)); [split; assumption | exact Hm | reflexivity].
+  - rewrite (max_native_exact flocq_ops fvalue fok flocq_exact (VFlt false (f_of_Z z)) mx excl (fvalue (f_of_Z z))); [|exact Ho | exact Hm | reflexivity].
+    destruct excl; rewrite Hv; tauto.
+Qed.
+Print Assumptions C13_maximum_carrier_independent_for_the_binary64_model.
+
+(* e.g. int64(2^53) against the exclusive maximum 2^53 (a float64): reported, by the integer comparison *)
+Example C13_binary64_edge : max_native flocq_ops (VInt KInt64 (2 ^ 53)) (f_of_Z (2 ^ 53)) true = true /\
+                            max_native flocq_ops (VInt KInt64 (2 ^ 53 - 1)) (f_of_Z (2 ^ 53)) true = false.
+Proof. vm_compute. split; reflexivity. Qed.
 
 (* non-vacuity: the interface is satisfiable (a numops whose "floats" are the integers themselves) *)
 Definition toy_ops : numops :=
